@@ -6,7 +6,7 @@ CONSTANTS
   MaxNoise = 0
   MaxFaults = 1
   Emit = TRUE
-  FixDup = FALSE
+  FixDup = TRUE
   DupAlso = FALSE
 INVARIANTS Safe SafeWire NeverCompleteOnDamage CompleteWhenInOrder DupIsTheOnlyDeviation ClassesAgree EmitScn
 CHECK_DEADLOCK FALSE
